@@ -54,16 +54,4 @@ Chi2Form(e, W) ==
            c1 |-> QCanon(QAdd(QMul(QI(W[1][3] + W[3][1]), ev[1]), QMul(QI(W[2][3] + W[3][2]), ev[2]))),
            c2 |-> QI(W[3][3])]
 
-\* ---------- validity (what Graph construction must accept) ----------
-Kinds == {"R2","R3","SE2","SE3"}
-IsPoint(k) == k \in {"R2","R3"}
-\* est / off: kind name, or "none" / "array" / "float" for non-pose values; info: <<rows, cols>>
-OdoValid(vkinds, est, info) ==
-  /\ Len(vkinds) = 2 /\ vkinds[1] \in Kinds /\ vkinds[2] = vkinds[1] /\ est = vkinds[1]
-  /\ info = <<CDim(vkinds[1]), CDim(vkinds[1])>>
-LmValid(vkinds, est, off, info) ==
-  /\ Len(vkinds) = 2 /\ vkinds[1] \in Kinds /\ vkinds[2] \in Kinds
-  /\ IsPoint(vkinds[2]) /\ Dim(vkinds[1]) = Dim(vkinds[2])
-  /\ off = vkinds[1] /\ est = vkinds[2]
-  /\ info = <<CDim(vkinds[2]), CDim(vkinds[2])>>
 =====================================================================
